@@ -37,11 +37,18 @@ let run req =
     let want_io = match jfield_opt op "io" with Some (JBool b) -> b | _ -> true in
     let r = match jstr (jfield op "op") with
       | "open" ->
-        s := hopen sha256_o c (match !file with None -> [] | Some f -> f);
+        s := hopen sha256_o sha512_o rmd160_o c (match !file with None -> [] | Some f -> f);
         st_json want_io !s []
       | "connect" ->
         let (s', r) = connect sha256_o sha512_o rmd160_o c !s (jnat (jfield op "start")) (jbytes (jfield op "batch")) in
         s := s'; st_json want_io !s [("res", of_cres r)]
+      | "connect_pair" ->
+        (* two overlapping calls: connect has no suspension point, so they take effect one after the other *)
+        let one j = (let (s', r) = connect sha256_o sha512_o rmd160_o c !s (jnat (jfield j "start")) (jbytes (jfield j "batch")) in
+                     s := s'; of_cres r) in
+        let ra = one (jfield op "a") in
+        let rb = one (jfield op "b") in
+        st_json want_io !s [("res_a", ra); ("res_b", rb)]
       | "close" ->
         let f = hclose !s !file in
         file := Some f;
@@ -56,7 +63,7 @@ let run req =
                  | None -> f) in
         file := Some f; JObj [("filelen", of_int (SL.length f))]
       | "repair" ->
-        s := repair sha256_o c !s (jnat (jfield op "start"));
+        s := repair sha256_o sha512_o rmd160_o c !s (jnat (jfield op "start"));
         st_json want_io !s []
       | "fetch" ->
         let (s', r) = ensure_chunk_at sha256_o c !s (jnat (jfield op "height")) (jbytes (jfield op "chunk")) in
